@@ -35,6 +35,7 @@ type cfg struct {
 	HdrVersion, IOConc, FileSize int
 	MaxActive, Workers, Per      int
 	AhtSync, WBuf                int
+	IdxSyncThld                  int // index flushes are fsynced only every IdxSyncThld insertions (0: with every flush)
 	Reopen                       bool
 	// Directed: the stale-suffix scenario (a window in which several transactions are pre-committed before the next sync,
 	// the first one with value bytes, the following ones without)
@@ -45,17 +46,18 @@ type cfg struct {
 
 func pick(rng *rand.Rand, run int) cfg {
 	c := cfg{
-		Ext:        run%3 == 1,
-		Embedded:   run%4 == 2,
-		HdrVersion: run % 2,
-		IOConc:     1 + run%2,
-		FileSize:   []int{512, 2048, 1 << 20}[run%3],
-		MaxActive:  []int{4, 8}[rng.Intn(2)],
-		Workers:    2 + rng.Intn(2),
-		Per:        2 + rng.Intn(2),
-		AhtSync:    1 + run%3,
-		WBuf:       []int{128, 4096}[run%2],
-		Reopen:     run%2 == 0,
+		Ext:         run%3 == 1,
+		Embedded:    run%4 == 2,
+		HdrVersion:  run % 2,
+		IOConc:      1 + run%2,
+		FileSize:    []int{512, 2048, 1 << 20}[run%3],
+		MaxActive:   []int{4, 8}[rng.Intn(2)],
+		Workers:     2 + rng.Intn(2),
+		Per:         2 + rng.Intn(2),
+		AhtSync:     1 + run%3,
+		WBuf:        []int{128, 4096}[run%2],
+		IdxSyncThld: []int{0, 1 << 20}[(run/2)%2],
+		Reopen:      run%2 == 0,
 	}
 	if c.Embedded {
 		c.IOConc = 1
@@ -80,7 +82,11 @@ func (c cfg) opts() *store.Options {
 		WithMaxIOConcurrency(c.IOConc).WithFileSize(c.FileSize).WithMaxActiveTransactions(c.MaxActive).
 		WithMaxConcurrency(8).WithExternalCommitAllowance(c.Ext).WithMaxTxEntries(4).WithMaxKeyLen(16).WithMaxValueLen(128).
 		WithWriteBufferSize(c.WBuf).WithLogger(logger.NewMemoryLoggerWithLevel(logger.LogError))
-	o.WithIndexOptions(o.IndexOpts.WithFlushThld(3).WithSyncThld(3).WithMaxNodeSize(512).WithFlushBufferSize(1 << 12).WithCacheSize(32))
+	isync := 3
+	if c.IdxSyncThld > 0 {
+		isync = c.IdxSyncThld // several flushes without fsync: a crash may tear an earlier one and leave a later one intact
+	}
+	o.WithIndexOptions(o.IndexOpts.WithFlushThld(3).WithSyncThld(isync).WithMaxNodeSize(512).WithFlushBufferSize(1 << 12).WithCacheSize(32))
 	o.WithAHTOptions(o.AHTOpts.WithWriteBufferSize(1 << 12).WithSyncThld(c.AhtSync))
 	return o
 }
@@ -301,6 +307,7 @@ func (w *workload) recoverImage(dir string, acks []ack, committedAt uint64, rec 
 		alhs := make([][sha256.Size]byte, 0, n)
 		hdrs := make([]*store.TxHeader, 0, n)
 		latest := map[string][]byte{}
+		versions := map[string][]uint64{} // ids of the transactions that wrote each key, in commit order
 		contents := map[uint64][sha256.Size]byte{}
 		rec.ChainOk, rec.ContentOk, rec.ExtraValuesOk, rec.LinkOk = true, true, true, true
 		for id := uint64(1); id <= n; id++ {
@@ -344,6 +351,7 @@ func (w *workload) recoverImage(dir string, acks []ack, committedAt uint64, rec 
 				}
 				es = append(es, kv{append([]byte(nil), e.Key()...), v})
 				latest[string(e.Key())] = v
+				versions[string(e.Key())] = append(versions[string(e.Key())], id)
 			}
 			contents[id] = contentDigest(es)
 		}
@@ -397,6 +405,31 @@ func (w *workload) recoverImage(dir string, acks []ack, committedAt uint64, rec 
 				if err != nil || string(got) != string(v) {
 					rec.IndexOk = false
 					rec.Detail += fmt.Sprintf("Get(%s) differs (err=%v) got tx=%d hc=%d len=%d want len=%d; ", k, err, ref.Tx(), ref.HC(), len(got), len(v))
+				}
+			}
+			// every earlier version of every key is still reachable through the index (history log)
+			for k, want := range versions {
+				var got []uint64
+				var herr error
+				_, hung, _ := vh.Guard(8*time.Second, func() {
+					refs, _, err := st.History([]byte(k), 0, false, len(want)+4)
+					herr = err
+					for _, r := range refs {
+						got = append(got, r.Tx())
+					}
+				})
+				if hung {
+					rec.IndexOk = false
+					rec.Detail += fmt.Sprintf("History(%s) does not terminate; ", k)
+					break
+				}
+				same := herr == nil && len(got) == len(want)
+				for i := 0; same && i < len(want); i++ {
+					same = got[i] == want[i]
+				}
+				if !same {
+					rec.IndexOk = false
+					rec.Detail += fmt.Sprintf("History(%s) = %v (err=%v), the recovered history has %v; ", k, got, herr, want)
 				}
 			}
 		}
